@@ -3482,7 +3482,9 @@ def evx(m, run):
     for its own direction: linspace(start_d, stop_d, sample_size_d), find_spans / basis_functions with degree_d, knots_d, size_d"""
     from .skel import Sym
     from .poly import Poly
-    cases = (('Curve', 1, (2,), (5,), (4,)), ('Surface', 2, (2, 1), (4, 5), (3, 4)), ('Volume', 3, (1, 2, 1), (3, 4, 2), (2, 3, 2)))
+    # (both orders of unequal degrees: a window cut with the other direction's degree + 1 is hidden by zip() when it is the longer one)
+    cases = (('Curve', 1, (2,), (5,), (4,)), ('Surface', 2, (2, 1), (4, 5), (3, 4)), ('Surface', 2, (1, 2), (3, 5), (2, 3)), ('Volume', 3, (1, 2, 1), (3, 4, 2), (2, 3, 2)),
+             ('Volume', 3, (2, 1, 2), (3, 3, 4), (2, 2, 2)))
     for cname, pdim, degs, sizes, samples in cases:
         for rat in (False, True):
             cls = cname + 'Evaluator' + ('Rational' if rat else '')
@@ -6481,3 +6483,45 @@ def fl3(m, run, rule='FL3.flips-on-labelled-nets'):
             except Unsupported as ex:
                 raise AnalysisError('%s: interpreter met an unsupported construct: %s' % (key, ex))
             run.ob(rule, key, why is None, 'stored points reversed, every view follows%s' % ('' if inplace else ', input untouched') if why is None else why, 'geomdl/operations.py:%d in %s' % (ff.node.lineno, ff.key))
+
+
+# ====================================================================================== C03 / C17: knot vector normalisation, exactly
+def nm2(m, run, rule='NM2.normalisation-is-the-affine-map-onto-the-unit-interval'):
+    """NM2: knotvector.normalize interpreted with exact arithmetic (text mode: the rounding through a formatted string is carried out) on
+    knot vectors whose normalised knots are exactly representable - ranges [0, 1], [2, 3], [-1, 0] (unit length, shifted), [1, 5],
+    [-2, 2], [0, 4], [0.5, 2.5], with repeated interior knots: knot k becomes (k - first) / (last - first), in a new list, the input
+    left as it was"""
+    from fractions import Fraction as F
+    fi = m.func('knotvector.normalize')
+    vecs = [[0, 0, 0, F(1, 4), F(1, 2), F(1, 2), 1, 1, 1], [2, 2, F(5, 2), 3, 3], [-1, -1, -1, F(-3, 4), F(-1, 4), 0, 0, 0], [1, 1, 2, 3, 3, 5, 5],
+            [-2, -2, -2, 0, 1, 2, 2, 2], [0, 0, 1, 2, 3, 4, 4], [F(1, 2), F(1, 2), 1, F(3, 2), F(5, 2), F(5, 2)], [3, 3, 3, 4, 4, 4]]
+    bad = []
+    for kv in vecs:
+        inp = [float(x) for x in kv]
+        keep = list(inp)
+        sk = SK(m, {})
+        sk.exact = True
+        sk.text = True
+        why = None
+        try:
+            out = sk.call(fi, [inp], {})
+            want = [(F(x) - F(kv[0])) / (F(kv[-1]) - F(kv[0])) for x in kv]
+            if not isinstance(out, list) or len(out) != len(kv):
+                why = 'returns %r' % (out,)
+            elif out is inp:
+                why = 'returns the input list itself'
+            elif inp != keep:
+                why = 'the input is modified'
+            else:
+                for i, (g_, w_) in enumerate(zip(out, want)):
+                    if isinstance(g_, Tok) or F(g_) != w_:
+                        why = 'knot %d becomes %s, (k - first) / (last - first) is %s' % (i, g_, w_)
+                        break
+        except Violation as v:
+            why = '%s %s' % (v.msg, v.where())
+        except Unsupported as ex:
+            raise AnalysisError('%s: interpreter met an unsupported construct: %s' % (fi.key, ex))
+        if why:
+            bad.append(('knots %s' % [str(x) for x in kv], why))
+    run.ob(rule, '%s :: %d knot vectors' % (fi.key, len(vecs)), not bad, 'k -> (k - first) / (last - first), new list' if not bad else '%s: %s   [%d of %d]' % (bad[0][0], bad[0][1], len(bad), len(vecs)),
+           'geomdl/knotvector.py:%d in %s' % (fi.node.lineno, fi.key))
